@@ -302,3 +302,20 @@ func uTwoSided(counts []uint64, u int) (num, den uint64) {
 	}
 	return num, tot
 }
+
+// tCondition returns how strongly relative rounding errors of the means and
+// variances are amplified in Welch's t: the larger of (|m0|+|m1|)/sqrt(v0/n0
+// + v1/n1) and |m_i|/sd_i over the non-constant samples.
+func tCondition(a, b []float64) float64 {
+	m0, v0 := exactMeanVar(a)
+	m1, v1 := exactMeanVar(b)
+	se := math.Sqrt(v0/float64(len(a)) + v1/float64(len(b)))
+	k := (math.Abs(m0) + math.Abs(m1)) / se
+	if v0 > 0 {
+		k = math.Max(k, math.Abs(m0)/math.Sqrt(v0))
+	}
+	if v1 > 0 {
+		k = math.Max(k, math.Abs(m1)/math.Sqrt(v1))
+	}
+	return k
+}
